@@ -438,6 +438,9 @@ func c14Harness(sc c14Scn, o *c14Obs) func() {
 				return
 			}
 			tnc.SetPTT(o.ptt)
+			if sc.DieAfter > 0 {
+				defer tnc.Close() // whatever happens the application cleans up - possibly while the library notices the loss
+			}
 			var conn net.Conn
 			if sc.Kind == "malformed-listen" {
 				// value-less and odd notifications while a listener is active
